@@ -117,10 +117,26 @@ def gen(rng, tier):
     return cs
 
 
+# (in the histories of the stream client: this property's verdicts, and C04's on what the reader does with a refused packet)
+from props import _worldprop as WP
+relevant_verdict = WP.make_relevant(ID, also=("C04",))
+
+
+def gen_run(exe, rng, tier):
+    """the readers where the proxy runs them as stream CLIENT - the real tcpconnect/tcpclientrd and tlsconnect/tlsclientrd (the TLS context
+    the proxy itself makes for the server block) - reading replies cut into arbitrary writes, and bursts of replies that are all on the
+    connection before the reader gets to read"""
+    import worldhist as WH
+    return WH.run_parallel(exe, rng, 80 if tier == "quick" else 2000, WH.srvconn_history)
+
+
 def project(op, line):
     """under an allocation failure the outcome is judged by the monitor, not predicted by the model"""
-    return "" if op == "fault" else line
+    import worldhist as WH
+    if op == "fault":
+        return ""
+    return WH.project("C04", op, line) if op in ("cfg", "srvconn", "reply", "writer", "rq", "pop", "tick", "srvstate", "client") else line
 
 
 def nontrivial(c):
-    return bool(c.tags.get("cut"))
+    return bool(c.tags.get("cut") or c.tags.get("burst") or c.tags.get("good-reply"))
